@@ -36,13 +36,17 @@ import (
 
 type op struct {
 	k    byte // n p a r w u c f v s t
-	a, b int
+	a, b int  // for calls b = recv + 2*abn; abn: 0 normal return, 1 hook panics, 2 PlaceArgs panics, 3 Goexit in a goroutine
 }
 
 func (o op) String() string {
 	switch o.k {
 	case 'n', 'r', 'v', 't':
 		return fmt.Sprintf("%c:%d", o.k, o.a)
+	case 'c':
+		if o.b >= 2 {
+			return fmt.Sprintf("c:%d:%d:%d", o.a, o.b&1, o.b>>1)
+		}
 	}
 	return fmt.Sprintf("%c:%d:%d", o.k, o.a, o.b)
 }
@@ -55,6 +59,10 @@ func parseOp(s string) op {
 	}
 	if len(f) > 2 {
 		o.b, _ = strconv.Atoi(f[2])
+	}
+	if len(f) > 3 {
+		abn, _ := strconv.Atoi(f[3])
+		o.b += 2 * abn
 	}
 	return o
 }
@@ -108,6 +116,7 @@ type thr struct {
 	mu        *sync.Mutex
 	results   []byte
 	delivered bool
+	abn       int // how the current call's hook ends (see op.b)
 }
 
 type world struct {
@@ -190,13 +199,36 @@ func (h *ihook) callout(ev string) {
 	}
 }
 
+// abnormalEnd ends the call-out the way the current op asks for (after the scheduler has
+// granted the "return" step): panic in the hook, panic in the caller's PlaceArgs callback run
+// by the hook, or runtime.Goexit.
+func (h *ihook) abnormalEnd(placeArgs func(capnp.Struct) error) {
+	th := h.w.me()
+	if th == nil {
+		return
+	}
+	switch th.abn {
+	case 1:
+		panic(sentinelErr{})
+	case 2:
+		if placeArgs != nil {
+			placeArgs(capnp.Struct{})
+		}
+		panic(sentinelErr{})
+	case 3:
+		runtime.Goexit()
+	}
+}
+
 func (h *ihook) Send(ctx context.Context, s capnp.Send) (*capnp.Answer, capnp.ReleaseFunc) {
 	h.callout("S")
+	h.abnormalEnd(s.PlaceArgs)
 	return capnp.ErrorAnswer(s.Method, sentinelErr{}), func() {}
 }
 
 func (h *ihook) Recv(ctx context.Context, r capnp.Recv) capnp.PipelineCaller {
 	h.callout("V")
+	h.abnormalEnd(nil)
 	r.Reject(sentinelErr{})
 	return nil
 }
@@ -277,28 +309,32 @@ func (w *world) exec(th *thr, o op) (res byte) {
 		return 'k'
 	case 'c':
 		th.delivered = false
-		m := capnp.Method{InterfaceID: 1, MethodID: 2}
-		if o.b == 0 {
-			ans, rel := w.cs[o.a].SendCall(context.Background(), capnp.Send{Method: m})
-			_, err := ans.Struct()
-			rel()
-			if th.delivered {
-				return 's'
-			}
-			if err != nil {
+		th.abn = o.b >> 1
+		defer func() { th.abn = 0 }()
+		if o.b>>1 == 3 {
+			// the call is made in a goroutine of its own, which leaves by runtime.Goexit
+			// from inside the hook; this thread waits for it
+			done := make(chan struct{})
+			go func() {
+				id := goid()
+				w.lk.Lock()
+				w.byGoid[id] = th
+				w.lk.Unlock()
+				defer close(done)
+				defer func() {
+					w.lk.Lock()
+					delete(w.byGoid, id)
+					w.lk.Unlock()
+				}()
+				w.doCall(th, o)
+			}()
+			<-done
+			if !th.delivered {
 				return 'e'
 			}
-			return '?'
+			return 'P'
 		}
-		ret := &returner{}
-		w.cs[o.a].RecvCall(context.Background(), capnp.Recv{Method: m, ReleaseArgs: func() {}, Returner: ret})
-		if th.delivered {
-			return 's'
-		}
-		if ret.err != nil {
-			return 'e'
-		}
-		return '?'
+		return w.doCall(th, o)
 	case 'f':
 		p := w.ps[o.a]
 		if p == nil {
@@ -325,6 +361,33 @@ func (w *world) exec(th *thr, o op) (res byte) {
 			return 't'
 		}
 		return 'f'
+	}
+	return '?'
+}
+
+// doCall performs SendCall (o.b == 0) or RecvCall through the client in slot o.a.
+func (w *world) doCall(th *thr, o op) byte {
+	m := capnp.Method{InterfaceID: 1, MethodID: 2}
+	if o.b&1 == 0 {
+		place := func(capnp.Struct) error { panic(sentinelErr{}) }
+		ans, rel := w.cs[o.a].SendCall(context.Background(), capnp.Send{Method: m, PlaceArgs: place})
+		_, err := ans.Struct()
+		rel()
+		if th.delivered {
+			return 's'
+		}
+		if err != nil {
+			return 'e'
+		}
+		return '?'
+	}
+	ret := &returner{}
+	w.cs[o.a].RecvCall(context.Background(), capnp.Recv{Method: m, ReleaseArgs: func() {}, Returner: ret})
+	if th.delivered {
+		return 's'
+	}
+	if ret.err != nil {
+		return 'e'
 	}
 	return '?'
 }
@@ -583,7 +646,7 @@ func (g *gen) genOp(th int) (op, bool) {
 		g.root[d] = g.wroot[w]
 		return op{'u', w, d}, true
 	case 4: // call
-		return op{'c', g.clientSlot(), r.Intn(2)}, true
+		return op{'c', g.clientSlot(), callKind(r)}, true
 	case 5: // Fulfill
 		if g.np == 0 {
 			return op{}, false
@@ -700,6 +763,15 @@ func genHistory(r *Rand, mode string) ([][]op, bool) {
 	return progs, g.allowMis
 }
 
+// callKind: recv + 2*abn; one call in four ends abnormally (hook panic, PlaceArgs panic, Goexit).
+func callKind(r *Rand) int {
+	k := r.Intn(2)
+	if r.Intn(4) == 0 {
+		k += 2 * (1 + r.Intn(3))
+	}
+	return k
+}
+
 // genDirected: a promise with 1-2 clients is fulfilled with a client of a plain capability
 // while other threads release / add references / call through the promise's clients.
 func genDirected(r *Rand) [][]op {
@@ -737,7 +809,7 @@ func genDirected(r *Rand) [][]op {
 				p = append(p, op{'a', c, nc})
 				nc++
 			case 2:
-				p = append(p, op{'c', c, r.Intn(2)})
+				p = append(p, op{'c', c, callKind(r)})
 			case 3:
 				if nw > 0 && i == 0 {
 					p = append(p, op{'u', 0, nc})
@@ -801,7 +873,7 @@ func genDirectedWeak(r *Rand) [][]op {
 			p = append(p, op{'u', i, d})
 			switch r.Intn(4) {
 			case 0:
-				p = append(p, op{'c', d, r.Intn(2)})
+				p = append(p, op{'c', d, callKind(r)})
 			case 1:
 				p = append(p, op{'r', d, 0})
 			case 2:
@@ -811,7 +883,7 @@ func genDirectedWeak(r *Rand) [][]op {
 		progs = append(progs, p)
 	}
 	if r.Intn(2) == 0 {
-		progs = append(progs, []op{{'c', strong[0], r.Intn(2)}})
+		progs = append(progs, []op{{'c', strong[0], callKind(r)}})
 	}
 	if viaPromise && r.Bool() {
 		progs = append(progs, []op{{'f', 0, 0}})
@@ -870,7 +942,7 @@ func genChain(r *Rand) (progs [][]op, nracers int) {
 			p = []op{{'a', c, nc}, {'r', c, 0}}
 			nc++
 		case 2:
-			p = []op{{'c', c, r.Intn(2)}, {'r', c, 0}}
+			p = []op{{'c', c, callKind(r)}, {'r', c, 0}}
 		default:
 			p = []op{{'t', c, 0}, {'r', c, 0}}
 		}
